@@ -4,11 +4,17 @@ import Proofs.SyncWitness
 # C05 — a full node recovers from a crash at any point of block application
 
 Model: the same `Sync` definitions as C02.  Every step (`Sync.onHeader` / `Sync.onData`, i.e. `deliver`)
-returns the atomic durable writes it issues, in order — per applied block `[updateState, saveBlock,
-setHeight]` (`block/sync.go:162,166,171`).  **Crash** = only a prefix of those writes reaches the disk
+returns the atomic durable writes it issues, in order — per applied block `[saveBlock, updateState,
+setHeight]` (`block/sync.go` `trySyncNextBlock`: the block is saved **before** the state that says it was
+applied, /repo 99e45dc).  **Crash** = only a prefix of those writes reaches the disk
 (`Store.applyPrefix k ws`), the in-memory state and the caches are lost; **restart** = `Sync.start c image`
 with empty caches (`NewManager` raises the chain height to the state's height).  Compared with the real
 `SyncLoop` + `NewManager` at every write boundary by stream C05.
+
+Why every boundary is harmless now: after `saveBlock` alone the new block sits *above* the recorded height —
+the node restarts below it and applies that height again (the save is repeated); after `saveBlock,
+updateState` the state is one ahead of the stored chain height, `Sync.start` raises the height to the state's
+height, and the block of that height is there.
 -/
 namespace Spec.C05
 open Wire Chain Sync
@@ -25,52 +31,55 @@ theorem crash_before_all (s : Store) (ws : List SW) : s.applyPrefix 0 ws = s := 
 
 /-- `DiskOK c ch d` in the words of the property: with `H = recHeight c d` the chain height the node reports
 after restart, the stored height is not above `H`, every height `≤ H` has a retrievable block identical to the
-proposer's, and the recorded state is the state after exactly `H`. -/
+proposer's, and the recorded state is the state after exactly `H`.  (Blocks above `H` are not constrained: the
+image may hold the block of height `H + 1`, saved before its state.)  Last clause: the two DA-submission
+watermarks that `Sync.start` reads from the metadata parse — absent or 8 bytes, which is all a node ever
+writes (`Sync.start` fails otherwise; the sync loop writes no metadata). -/
 theorem diskOK_iff (d : Store) : DiskOK c ch d ↔
     (d.height ≤ recHeight c d ∧
      (∀ s, d.state = some s → s = stateAt c ch (recHeight c d) ∧ c.initialHeight ≤ recHeight c d) ∧
      (∀ k, c.initialHeight ≤ k → k ≤ recHeight c d →
         ∃ b sb, ch k = some b ∧ d.getBlock k = some sb ∧ sb.sh = b.sh ∧ sb.savedSig = b.sh.sig ∧
-          sb.data.txs = b.data.txs ∧ (b.data.txs ≠ [] → sb.data = b.data))) :=
-  ⟨fun h => ⟨h.hle, h.state, h.blocks⟩, fun ⟨a, b, c⟩ => ⟨a, b, c⟩⟩
+          sb.data.txs = b.data.txs ∧ (b.data.txs ≠ [] → sb.data = b.data)) ∧
+     ((∃ w, Producer.wmOf d Producer.hdrWmKey = some w) ∧ (∃ w, Producer.wmOf d Producer.dataWmKey = some w))) :=
+  ⟨fun h => ⟨h.hle, h.state, h.blocks, h.wm⟩, fun ⟨a, b, c, d⟩ => ⟨a, b, c, d⟩⟩
 
-/-! ## every crash point except one leaves a recoverable image -/
+/-! ## every crash point leaves a recoverable image -/
 
-/-- **Crash safety, strongest true form.**  After any events and clean restarts, for every next event and
-**every** number `k` of its writes that reached the disk — except when the last write that reached it is a
-state write (the boundary between `UpdateState` and `SaveBlockData`) — the image satisfies `DiskOK`, `start`
-succeeds on it, the restarted node reports exactly the recorded height, its state is the state after exactly
-that height, and it satisfies the invariant of C02 again (with empty caches and no events delivered yet), so
-that all theorems of C02 apply from it. -/
-theorem C05_crash_partial (g : GoodChain c ch top) (ops : List Op) (e : Ev) (k : Nat)
-    (hk : afterStateWrite (deliver ch (runOps c ch ops) e).2 k = false) :
+/-- **The property as stated: every boundary between two durable writes.**  For every good chain, after any
+events and clean restarts, for every next event and **every** number `k` of its writes that reached the disk:
+the image satisfies `DiskOK`; the height it records lies between the chain height before the step and the one
+the step was about to reach (nothing acknowledged is lost, nothing is invented); `Sync.start` succeeds on it;
+the restarted node reports exactly the recorded height, its state is the state after exactly that height,
+every height up to it holds the proposer's block (signed header, signature, transaction list, for a non-empty
+block the very same data), and the node satisfies the invariant of C02 again (with empty caches and no events
+delivered yet), so that all theorems of C02 apply from it. -/
+def C05_crash_full : Prop :=
+  ∀ (c : Cfg) (ch : PChain) (top : Nat) (ops : List Op) (e : Ev) (k : Nat), GoodChain c ch top →
     let image := (runOps c ch ops).store.applyPrefix k (deliver ch (runOps c ch ops) e).2
     DiskOK c ch image ∧
+    (runOps c ch ops).store.height ≤ recHeight c image ∧
+    recHeight c image ≤ (deliver ch (runOps c ch ops) e).1.store.height ∧
     ∃ n ws, Sync.start c image = some (n, ws) ∧ n.store.height = recHeight c image ∧
       n.lastState.lastHeight = n.store.height ∧ n.lastState = stateAt c ch n.store.height ∧
       (∀ j, c.initialHeight ≤ j → j ≤ n.store.height →
-        ∃ b sb, ch j = some b ∧ n.store.getBlock j = some sb ∧ sb.sh = b.sh ∧ sb.data.txs = b.data.txs) ∧
-      Inv c ch n.store.height [] n := by
-  intro image
-  obtain ⟨n, ws, a1, a2, a3, a4, a5⟩ := crash_restarts g (runOps_safe g ops) e k hk
-  refine ⟨a2, n, ws, a1, a3, a4, a5.safe.st, ?_, a5⟩
-  intro j h1 h2
-  obtain ⟨b, sb, x1, x2, x3, _, x4, _⟩ := a5.safe.chain j h1 h2
-  exact ⟨b, sb, x1, x2, x3, x4⟩
+        ∃ b sb, ch j = some b ∧ n.store.getBlock j = some sb ∧ sb.sh = b.sh ∧ sb.savedSig = b.sh.sig ∧
+          sb.data.txs = b.data.txs ∧ (b.data.txs ≠ [] → sb.data = b.data)) ∧
+      Inv c ch n.store.height [] n
 
-/-- the excluded crash point is exactly "one block's state is written, its block is not yet": among the first
-three writes of a step that applies a block only `k = 1` is excluded -/
-example (rest : List SW) (s : State) :
-    afterStateWrite (.updateState s :: .saveBlock 1 {} :: .setHeight 1 :: rest) 0 = false ∧
-    afterStateWrite (.updateState s :: .saveBlock 1 {} :: .setHeight 1 :: rest) 1 = true ∧
-    afterStateWrite (.updateState s :: .saveBlock 1 {} :: .setHeight 1 :: rest) 2 = false ∧
-    afterStateWrite (.updateState s :: .saveBlock 1 {} :: .setHeight 1 :: rest) 3 = false := by
-  simp [afterStateWrite]
+/-- **Crash safety at full strength: the statement holds at every crash point.**  (Before /repo 99e45dc the
+boundary after the state write was a counterexample; the proof is by the shape of the writes of a step,
+`AppliedWrites`, and the three images inside one block application, `settled_step`.) -/
+theorem C05_crash : C05_crash_full := by
+  intro c ch top ops e k g image
+  obtain ⟨_, b1, b2⟩ := crash_image_ok g (runOps_safe g ops) e k
+  obtain ⟨n, ws, a1, a2, a3, a4, a5⟩ := crash_restarts g (runOps_safe g ops) e k
+  exact ⟨a2, b1, b2, n, ws, a1, a3, a4, a5.safe.st, a5.safe.chain, a5⟩
 
 /-! ## recurring crashes, and convergence after them -/
 
-/-- **Nesting.**  Every node reachable by genuine events, clean restarts and any number of crashes (each at a
-non-excluded write boundary of any step, including steps of the re-application after an earlier crash, each
+/-- **Nesting.**  Every node reachable by genuine events, clean restarts and any number of crashes (each at
+**any** write boundary of any step, including steps of the re-application after an earlier crash, each
 followed by a restart on the image with empty caches) satisfies the safety invariant of C02: the loop is
 alive, every height up to the chain height holds the proposer's block, the state is the state after exactly
 the chain height. -/
@@ -86,12 +95,11 @@ theorem C05_recurring_crashes (g : GoodChain c ch top) {n : FNode} (r : Reach c 
 
 /-- and the next crash of such a node is again covered: `start` succeeds on the image and yields a reachable
 node (so the argument repeats for ever) -/
-theorem C05_next_crash_restarts (g : GoodChain c ch top) {n : FNode} (r : Reach c ch n) (e : Ev) (k : Nat)
-    (hk : afterStateWrite (deliver ch n e).2 k = false) :
+theorem C05_next_crash_restarts (g : GoodChain c ch top) {n : FNode} (r : Reach c ch n) (e : Ev) (k : Nat) :
     ∃ n' ws, Sync.start c (n.store.applyPrefix k (deliver ch n e).2) = some (n', ws) ∧ Reach c ch n' := by
   obtain ⟨evs, hs⟩ := reach_safe g r
-  obtain ⟨n', ws, a1, _⟩ := crash_restarts g hs e k hk
-  exact ⟨n', ws, a1, .crash e k r hk a1⟩
+  obtain ⟨n', ws, a1, _⟩ := crash_restarts g hs e k
+  exact ⟨n', ws, a1, .crash e k r a1⟩
 
 /-- **A crash during the restart itself** (between `Sync.start`'s own writes) leaves a consistent image again,
 so it is covered too: starting on it gives a reachable node (`Reach.image`). -/
@@ -115,67 +123,95 @@ theorem C05_converges_after_crashes (g : GoodChain c ch top) (dc : DistinctCommi
   obtain ⟨evs, hi⟩ := reach_inv g dc r
   exact converges_from g dc hi ops h hready
 
-/-! ## the full statement is false of the current code -/
+/-- **Any crash, then everything delivered again: the node holds the whole chain.**  For every run, next event
+and crash point: the node restarted on the image, after any further delivery (any order, duplicates, clean
+restarts) that contains both parts of every block above the recorded height, is alive, has reached `top`, and
+every height from the initial height up to its chain height — in particular the initial height itself — holds
+the proposer's signed block. -/
+theorem C05_recovers_after_any_crash (g : GoodChain c ch top) (dc : DistinctCommitments ch) (ops : List Op) (e : Ev)
+    (k : Nat) (ops' : List Op) :
+    let image := (runOps c ch ops).store.applyPrefix k (deliver ch (runOps c ch ops) e).2
+    ∃ n ws, Sync.start c image = some (n, ws) ∧
+      ((∀ j, recHeight c image < j → j ≤ top → Delivered ch (evsOf ops') j) →
+        (runFrom c ch n ops').alive = true ∧ top ≤ (runFrom c ch n ops').store.height ∧
+        ∀ j, c.initialHeight ≤ j → j ≤ (runFrom c ch n ops').store.height →
+          ∃ b sb, ch j = some b ∧ (runFrom c ch n ops').store.getBlock j = some sb ∧ sb.sh = b.sh ∧
+            sb.savedSig = b.sh.sig ∧ sb.data.txs = b.data.txs) := by
+  intro image
+  obtain ⟨n, ws, a1, _, a3, _, a5⟩ := crash_restarts g (runOps_safe g ops) e k
+  refine ⟨n, ws, a1, fun hall => ?_⟩
+  have hi := runFrom_inv g dc ops' a5
+  refine ⟨hi.safe.alive, converges_from g dc a5 ops' top (fun j x y => hall j (by rw [← a3]; exact x) y), ?_⟩
+  intro j h1 h2
+  obtain ⟨b, sb, x1, x2, x3, x4, x5, _⟩ := hi.safe.chain j h1 h2
+  exact ⟨b, sb, x1, x2, x3, x4, x5⟩
 
-/-- the property as stated: every boundary between two durable writes -/
-def C05_crash_full : Prop :=
-  ∀ (c : Cfg) (ch : PChain) (top : Nat) (evs : List Ev) (e : Ev) (k : Nat), GoodChain c ch top →
-    DiskOK c ch ((run c ch evs).store.applyPrefix k (deliver ch (run c ch evs) e).2)
+/-! ## the witnesses of the repaired defect now recover (kernel-checked) -/
 
 theorem witness3_good : GoodChain wC wch3 3 := goodChain_of_check wC _ 3 (by decide) wf_check3
+theorem witness3_distinct : DistinctCommitments wch3 := distinct_of_check 1 3 _ wf_distinct3
 
-/-- **The full statement fails** (kernel-checked).  Chain of three blocks built by the producer model; header 1
-and data 2 are delivered, then header 2 arrives and the process dies after the first write of applying
-block 2.  The image holds the state of height 2 (so the node will report height 2) but no block 2.  Replayed on
-the real node by stream C05 (`C05/after-crash/crash-between-state-and-blk/block-missing-below-chain-height`). -/
-theorem C05_crash_fails : ¬ C05_crash_full := by
-  intro h
-  have hd : DiskOK wC wch3 wImage := h wC wch3 3 [.hdr 1, .dat 2] (.hdr 2) 1 witness3_good
-  obtain ⟨a, ra, rb, rc⟩ := wf_crash
-  obtain ⟨b, sb, _, hsb, _⟩ := hd.blocks 2 (by decide) (by rw [ra]; exact Nat.le_refl _)
-  rw [rb] at hsb
-  cases hsb
-
-/-- the witness is at the excluded boundary, and **the damage is permanent**: the restarted node reports
-height 2; after *everything* has been delivered again (all headers and all data of the chain) it has moved on
-to height 3 with a live loop, and block 2 is still missing — events at heights `≤` the chain height are
-dropped, so it is never fetched again. -/
-theorem C05_crash_witness_permanent :
-    afterStateWrite (deliver wch3 wBefore (.hdr 2)).2 1 = true ∧ recHeight wC wImage = 2 ∧
-    wImage.getBlock 2 = none ∧
-    wAfter.map (fun n => (n.store.height, n.lastState.lastHeight, n.store.getBlock 2, n.alive)) = some (3, 3, none, true) :=
+/-- **The former counterexample** (chain of three blocks built by the producer model; header 1 and data 2 are
+delivered, then header 2 arrives and the process dies after the first of the three writes of applying block 2
+— before /repo 99e45dc: state of height 2 without block 2, for ever).  Now the first write is the block: the
+image still records height 1 (stored height 1), holds the proposer's block 2 above it, the restarted node
+reports height 1 = the height of its state; and after everything has been delivered again it is alive at
+height 3 = the height of its state and holds the whole chain (signed header, signature, transactions at
+heights 1, 2, 3). -/
+theorem C05_crash_witness_recovers :
+    (deliver wch3 wBefore (.hdr 2)).2.length = 3 ∧ wBefore.store.height = 1 ∧
+    recHeight wC wImage = 1 ∧ wImage.height = 1 ∧ holdsBlock wch3 wImage 2 = true ∧
+    (Sync.start wC wImage).map (fun p => (p.1.store.height, p.1.lastState.lastHeight)) = some (1, 1) ∧
+    wAfter.map (fun n => (n.store.height, n.lastState.lastHeight, holdsChain3 n.store, n.alive)) = some (3, 3, true, true) :=
   wf_crash
 
-/-- the same window at the initial height (header 1 arrives at the fresh node, crash after the state write):
-the node reports height 1, and what it holds at height 1 is the **unsigned genesis block it wrote locally at
-start-up**, not the proposer's signed block — also after everything has been delivered again (finding
-`C05/after-crash/crash-between-state-and-blk/store/signature`). -/
-theorem C05_crash_witness_initial_height :
-    recHeight wC wImage1 = 1 ∧ (wImage1.getBlock 1).map (·.sh.sig) = some .none ∧
+/-- the only remaining window in which the state is ahead of the stored chain height (same step, crash after the
+second write: block and state written, height not yet): the image records height 2 with stored height 1 and
+holds block 2; the restarted node reports height 2; after re-delivery it holds the whole chain -/
+theorem C05_crash_witness_state_ahead :
+    recHeight wC wImageS = 2 ∧ wImageS.height = 1 ∧ holdsBlock wch3 wImageS 2 = true ∧
+    (Sync.start wC wImageS).map (fun p => (p.1.store.height, p.1.lastState.lastHeight)) = some (2, 2) ∧
+    wAfterS.map (fun n => (n.store.height, n.lastState.lastHeight, holdsChain3 n.store, n.alive)) = some (3, 3, true, true) :=
+  wf_crashS
+
+/-- **The former counterexample at the initial height** (header 1 arrives at the fresh node, crash after the
+first write of applying block 1 — before the repair the node reported height 1 and kept the *unsigned genesis
+block it wrote locally at start-up* for ever).  Now the image records height 0 (nothing applied) with the
+proposer's signed block 1 already saved; the restarted node reports height 0; after everything has been
+delivered again it is at height 3 and what it holds at height 1 is **the proposer's signed block** (the
+proposer's block 1 is signed, the stored signature is not empty). -/
+theorem C05_crash_witness_initial_height_recovers :
+    recHeight wC wImage1 = 0 ∧ holdsBlock wch3 wImage1 1 = true ∧
     (wch3 1).map (·.sh.sig.isEmpty) = some false ∧
-    wAfter1.map (fun n => (n.store.height, (n.store.getBlock 1).map (·.sh.sig), n.alive)) = some (3, some .none, true) :=
+    (Sync.start wC wImage1).map (fun p => (p.1.store.height, p.1.lastState.lastHeight)) = some (0, 0) ∧
+    wAfter1.map (fun n => (n.store.height, n.lastState.lastHeight, holdsChain3 n.store,
+      (n.store.getBlock 1).map (·.sh.sig.isEmpty), n.alive)) = some (3, 3, true, some false, true) :=
   wf_crash1
 
 /-! ## non-vacuity -/
 
-/-- the excluded crash points of a step are exactly `k ≡ 1 (mod 3)` within the step's writes (three writes per
-applied block: after the state write, before the block save) -/
-theorem C05_excluded_points (g : GoodChain c ch top) (ops : List Op) (e : Ev) (k : Nat) :
-    afterStateWrite (deliver ch (runOps c ch ops) e).2 k = true ↔
-      k % 3 = 1 ∧ k ≤ (deliver ch (runOps c ch ops) e).2.length :=
-  (deliver_safe g (runOps_safe g ops) e).2.afterStateWrite_iff k
+/-- the crash points of a step are the `3·(h' - h) + 1` prefixes of its writes (three writes per applied block);
+larger `k` are the same as no crash -/
+theorem C05_crash_points (g : GoodChain c ch top) (ops : List Op) (e : Ev) :
+    (deliver ch (runOps c ch ops) e).2.length =
+      3 * ((deliver ch (runOps c ch ops) e).1.store.height - (runOps c ch ops).store.height) :=
+  (deliver_safe g (runOps_safe g ops) e).2.consecutive.2.2.2
 
-/-- the hypotheses of `C05_crash_partial` are met on the witness chain at the other boundary inside the same
-step (state and block written, height not yet raised), and the conclusion is not trivial: the image records
-chain height 1, the restarted node reports height 2 = the height of its state -/
-example : ∃ n ws, Sync.start wC ((runOps wC wch3 [.ev (.hdr 1), .ev (.dat 2)]).store.applyPrefix 2
+/-- the order of the three writes of one applied block, as the model (and the code) issues them -/
+example (n : FNode) (sh : SHeader) (d : Data) : blockWrites n sh d =
+    [.saveBlock (n.store.height + 1) (blockOf sh d), .updateState (stateAfter n sh d), .setHeight (n.store.height + 1)] := rfl
+
+/-- `C05_crash` is not vacuous and its conclusion not trivial: on the witness chain, at the former bad point
+`k = 1` of a step with three writes, the restarted node exists and reports height 1 although block 2 is already
+on disk; at `k = 2` it reports height 2 while the image's stored height is still 1 -/
+example : (∃ n ws, Sync.start wC ((runOps wC wch3 [.ev (.hdr 1), .ev (.dat 2)]).store.applyPrefix 1
       (deliver wch3 (runOps wC wch3 [.ev (.hdr 1), .ev (.dat 2)]) (.hdr 2)).2) = some (n, ws) ∧
-    n.lastState.lastHeight = n.store.height := by
-  have hk : afterStateWrite (deliver wch3 (runOps wC wch3 [.ev (.hdr 1), .ev (.dat 2)]) (.hdr 2)).2 2 = false := by
-    cases h : afterStateWrite (deliver wch3 (runOps wC wch3 [.ev (.hdr 1), .ev (.dat 2)]) (.hdr 2)).2 2 with
-    | false => rfl
-    | true => have := ((C05_excluded_points witness3_good _ _ 2).mp h).1; omega
-  obtain ⟨_, n, ws, a1, _, a3, _⟩ := C05_crash_partial witness3_good [.ev (.hdr 1), .ev (.dat 2)] (.hdr 2) 2 hk
-  exact ⟨n, ws, a1, a3⟩
+      n.lastState.lastHeight = n.store.height ∧ Inv wC wch3 n.store.height [] n) ∧
+    recHeight wC wImage = 1 ∧ recHeight wC wImageS = 2 ∧ wImageS.height = 1 := by
+  obtain ⟨_, _, _, n, ws, a1, _, a3, _, _, a6⟩ := C05_crash wC wch3 3 [.ev (.hdr 1), .ev (.dat 2)] (.hdr 2) 1 witness3_good
+  exact ⟨⟨n, ws, a1, a3, a6⟩, wf_crash.2.2.1, wf_crashS.1, wf_crashS.2.1⟩
+
+/-- `C05_recovers_after_any_crash` applies to the witness chain (good, distinct commitments) -/
+example : GoodChain wC wch3 3 ∧ DistinctCommitments wch3 := ⟨witness3_good, witness3_distinct⟩
 
 end Spec.C05
